@@ -485,11 +485,24 @@ def gen_td_data(rng, ds):
     return out
 
 
+def td_sub(rng, g, where):
+    inner = sorted(td_star_vars(where)) or list(g.vars[:1])
+    x = rng.random()
+    proj = None if x < 0.2 else rng.sample(inner, rng.randint(1, len(inner))) if x < 0.85 else rng.sample(g.vars, 1)
+    return {"k": "sub", "q": {"distinct": False, "proj": proj, "where": where, "group": None, "count": None, "order": None}}
+
+
 def gen_td_one(rng, g, els):
     """one non-BGP element over few shared variables: small operands, so that each operator really decides rows"""
-    k = rng.choice(["optional", "optional", "optionalf", "minus", "minus", "filter", "bind", "values", "union"]
+    k = rng.choice(["optional", "optional", "optionalf", "minus", "minus", "filter", "bind", "values", "union", "sub", "sub"]
                    + (["graph", "graph"] if g.ds else []))
     small = lambda: {"k": "group", "els": [td_bgp(rng, g, 1, 1)]}      # noqa: E731
+    if k == "sub":
+        w = small()
+        if rng.random() < 0.4:
+            w["els"].append(rng.choice([{"k": "filter", "e": gen_td_expr(rng, g, 1)}, {"k": "optional", "g": small()},
+                                        {"k": "minus", "g": small()}]))
+        return td_sub(rng, g, w)
     if k == "optional":
         return {"k": "optional", "g": small()}
     if k == "optionalf":
@@ -549,7 +562,7 @@ def gen_td_push(rng, g):
     inner = [b1]
     for _ in range(r.choice([1, 1, 2])):
         k = r.choice(["optional", "optionalf", "minus", "minus", "minusf", "minusf", "filter", "filter", "bind", "bindc",
-                      "values", "union"] + (["graph", "graphv"] if g.ds else []))
+                      "values", "union", "sub", "sub"] + (["graph", "graphv"] if g.ds else []))
         if k == "optional":
             inner.append({"k": "optional", "g": {"k": "group", "els": [{"k": "bgp", "ts": pat()}]}})
         elif k == "optionalf":
@@ -569,6 +582,12 @@ def gen_td_push(rng, g):
                 inner.append({"k": "filter", "e": ex()})
         elif k == "values":
             inner.append({"k": "values", "vs": [o], "rows": [[t] for t in r.sample(g.subs + [None], 2)]})
+        elif k == "sub":        # the pushed variable inside a sub-select, projected or not
+            w = {"k": "group", "els": [{"k": "bgp", "ts": pat()}]}
+            if r.random() < 0.3:
+                w["els"].append({"k": "filter", "e": ex()})
+            inner.append({"k": "sub", "q": {"distinct": False, "proj": r.choice([[z], [z, o], [o], None, [u]]), "where": w,
+                                            "group": None, "count": None, "order": None}})
         elif k == "union":
             inner.append({"k": "union", "gs": [{"k": "group", "els": [{"k": "bgp", "ts": pat()}]},
                                               {"k": "group", "els": [{"k": "bgp", "ts": [[z, pr(), u]]}]}]})
@@ -663,6 +682,10 @@ def td_star_vars(node, out=None):
         if node.get("k") == "bind":
             out.add(node["v"])
             return out
+        if node.get("k") == "sub":      # only what the sub-select projects
+            sq = node["q"]
+            out |= set(sq["proj"]) if sq["proj"] is not None else td_star_vars(sq["where"])
+            return out
         for v in node.values():
             td_star_vars(v, out)
     elif isinstance(node, list):
@@ -677,9 +700,9 @@ def gen_case(rng, tier, i):
     """bgp / frag cases (the ones the Lean model also evaluates) are generated here; the others are generated
     inside the worker from a seed (`materialize`) because choosing a query with a non-empty answer needs
     evaluations, which would serialise the run if done in the parent process."""
-    stream = rng.choices(["rewrite", "init", "prepared", "store", "bgp", "frag", "sel", "nsctx", "td"],
-                         [26, 11, 13, 14, 8, 7, 6, 6, 20])[0]
-    if stream in ("bgp", "frag", "sel", "td"):
+    stream = rng.choices(["rewrite", "init", "prepared", "store", "bgp", "frag", "sel", "nsctx", "td", "iri"],
+                         [26, 11, 13, 14, 8, 7, 6, 6, 20, 7])[0]
+    if stream in ("bgp", "frag", "sel", "td", "iri"):
         while True:
             try:
                 return _gen_case(rng, tier, i, stream)
@@ -718,8 +741,64 @@ def materialize(case):
     return out
 
 
+IRI_TABLES = {
+    "uses_relative": ['', 'ftp', 'http', 'gopher', 'nntp', 'imap', 'wais', 'file', 'https', 'shttp', 'mms', 'prospero',
+                      'rtsp', 'rtsps', 'rtspu', 'sftp', 'svn', 'svn+ssh', 'ws', 'wss'],
+    "uses_netloc": ['', 'ftp', 'http', 'gopher', 'nntp', 'telnet', 'imap', 'wais', 'file', 'mms', 'https', 'shttp',
+                    'snews', 'prospero', 'rtsp', 'rtsps', 'rtspu', 'rsync', 'svn', 'svn+ssh', 'sftp', 'nfs', 'git',
+                    'git+ssh', 'ws', 'wss', 'itms-services'],
+    "uses_params": ['', 'ftp', 'hdl', 'prospero', 'http', 'imap', 'https', 'shttp', 'rtsp', 'rtsps', 'rtspu', 'sip',
+                    'sips', 'mms', 'sftp', 'tel'],
+}       # the lists in lean/RV/C15/ModelIri.lean
+
+
+def gen_iri_pair(rng):
+    """(BASE, relative reference) pairs for Prologue.absolutize: dot segments, empty segments, params, queries,
+    fragments, a trailing '#', network-path and absolute-path references, schemes urljoin knows and does not know"""
+    r = rng
+    seg = lambda: r.choice(["a", "b", "c.d", "e", ".", "..", "", "x;p", "y;", "..a", "a..", "...", "%2e"])      # noqa: E731
+    if r.random() < 0.3:        # the plain shape of `base_relative_is_concatenation`
+        dirs = [r.choice(["ns", "d", "v1", "a.b", "x;p"][: r.choice([3, 4, 5])]) for _ in range(r.randint(0, 3))]
+        base = r.choice(["http", "https", "file", "ftp"]) + "://" + r.choice(["e.org", "h:80", "a.b.c"]) + "/" \
+            + "".join(d + "/" for d in dirs)
+        ref = r.choice(["a", "b", "loc", "x1", "a.b", "..a", "p-q_r", "%41"])
+        return base, ref, True
+    scheme = r.choice(["http", "http", "https", "file", "urn", "HTTP", "foo", "ftp", "svn+ssh", ""])
+    net = r.choice(["e.org", "e.org", "a.b:80", "", "u@h"])
+    path = r.choice(["", "/", "/d/", "/d/e", "/d/e/", "/d//e/", "/d/./e", "/d/../e/", "/d;p/e;q", "/d/e;q", "/..", "/a/b/c/d"])
+    base = (scheme + ":" if scheme else "") + ("//" + net if (net or (scheme in ("http", "https", "HTTP") )) else "") + path
+    if scheme == "urn":
+        base = "urn:x:" + r.choice(["a", "a/b", "a/b/"])
+    if r.random() < 0.2:
+        base += "?" + r.choice(["q=1", "", "a/b"])
+    if r.random() < 0.2:
+        base += "#" + r.choice(["f", "", "f/g"])
+    if r.random() < 0.04:
+        base = ""
+    x = r.random()
+    if x < 0.1:
+        ref = r.choice(["", "#", "#f", "?", "?x=1", "?x#", ";p", ";", "."])
+    elif x < 0.18:
+        ref = "//" + r.choice(["o.org", "o.org/p", "", "o.org/../p"])
+    elif x < 0.26:
+        ref = r.choice(["x:y", "http://o.org/p/../q", "urn:a", "a/b:c", "HTTP://o/"])
+    else:
+        ref = ("/" if r.random() < 0.25 else "") + "/".join(seg() for _ in range(r.randint(1, 4)))
+        if r.random() < 0.2:
+            ref += r.choice(["?", "?q", "?q/../r"])
+        if r.random() < 0.25:
+            ref += r.choice(["#", "#f", "#f/../g"])
+    return base, ref, False
+
+
 def _gen_case(rng, tier, i, stream):
     seed = rng.randrange(1 << 30)
+    if stream == "iri":
+        pairs = []
+        for _ in range(12):
+            b, rf, plain = gen_iri_pair(rng)
+            pairs.append([b, rf, plain])
+        return {"stream": "iri", "pairs": pairs, "seed": seed, "data": [], "q": None}
     if stream == "bgp":
         data = gen_data(rng, False)
         g = Gen(rng, data, False)
@@ -1417,7 +1496,48 @@ def count_ops(node, acc):
             count_ops(v, acc)
 
 
+def _run_iri(case):
+    import urllib.parse as up
+    from rdflib.plugins.sparql.sparql import Prologue
+    viol, obs, stats = [], [], {"stream_iri": 1}
+    for k, want in IRI_TABLES.items():
+        if list(getattr(up, k)) != want:
+            viol.append("tables: urllib.parse.%s is %r, the Lean model has %r" % (k, getattr(up, k), want))
+    for b, rf, plain in case["pairs"]:
+        pr = Prologue()
+        pr.base = b
+        try:
+            direct = str(pr.absolutize(URIRef(rf)))
+            obs.append("iri " + (",".join(str(ord(c)) for c in direct) or "-"))
+        except Exception as e:  # noqa: BLE001
+            direct = None
+            obs.append("error " + _exc_name(e))
+        stats["iri_pairs"] = stats.get("iri_pairs", 0) + 1
+        stats["iri_plain" if plain else ("iri_with_colon" if ":" in rf else "iri_general")] = \
+            stats.get("iri_plain" if plain else ("iri_with_colon" if ":" in rf else "iri_general"), 0) + 1
+        if direct is not None and direct != rf and direct != b:
+            stats["iri_resolved_differs"] = stats.get("iri_resolved_differs", 0) + 1
+        # the whole pipeline: BASE declared in the query text, the reference as the object of a pattern
+        if b and direct is not None:
+            try:
+                q = prepareQuery("BASE <%s> SELECT * WHERE { ?s ?p <%s> }" % (b, rf))
+                got = str(q.algebra.p.p.triples[0][2])
+                if got != direct:
+                    viol.append("base-pipeline: BASE <%s> … <%s> is translated to <%s>, Prologue.absolutize gives <%s>"
+                                % (b, rf, got, direct))
+            except core.CaseTimeout:
+                raise
+            except Exception as e:  # noqa: BLE001
+                viol.append("base-pipeline: BASE <%s> … <%s> raises %s" % (b, rf, _exc_name(e)))
+        # `base_relative_is_concatenation`, asked of the implementation
+        if plain and direct != b + rf:
+            viol.append("base-plain: <%s> under BASE <%s> is <%s>, not the concatenation" % (rf, b, direct))
+    return {"obs": obs, "viol": viol, "nontrivial": True, "key": repr(("iri", case["pairs"])), "stats": stats}
+
+
 def run_impl(case):
+    if case.get("stream") == "iri":
+        return _run_iri(case)
     case = materialize(case)
     stream, q, data, ds = case["stream"], case["q"], case["data"], case.get("ds", False)
     seed = case.get("seed", 0)
@@ -2022,6 +2142,10 @@ def _td_alg(g):
             G = join(G, ("values", e["vs"], e["rows"]))
         elif k == "bind":
             G = ("extend", e["v"], e["e"], G)
+        elif k == "sub":        # ToMultiSet(Project(M, PV)); no modifiers in this fragment
+            sq = e["q"]
+            pv = list(sq["proj"]) if sq["proj"] is not None else sorted(td_star_vars(sq["where"]))
+            G = join(G, ("sub", pv, _td_alg(sq["where"])))
         else:
             raise ValueError(k)
     if filt is not None:
@@ -2047,6 +2171,8 @@ def _td_tokens(a, vs):
         return ["extend", _pt(a[1], vs), _pt(a[2], vs)] + _td_tokens(a[3], vs)
     if k == "graph":
         return ["graph", _pt(a[1], vs)] + _td_tokens(a[2], vs)
+    if k == "sub":
+        return ["sub", str(len(a[1]))] + [str(vs.index(v)) for v in a[1]] + _td_tokens(a[2], vs)
     if k == "values":
         out = ["values", str(len(a[2]))]
         for r in a[2]:
@@ -2060,6 +2186,9 @@ def model_lines(case):
     stream = case["stream"]
     if "lazy" in case:
         return []
+    if stream == "iri":
+        cp = lambda t: ",".join(str(ord(c)) for c in t) or "-"      # noqa: E731
+        return ["abs %s %s" % (cp(b), cp(rf)) for b, rf, _plain in case["pairs"]]
     if stream == "td":
         q, data = case["q"], case["data"]
         vs = VARS[: case["nvars"]]
@@ -2137,7 +2266,7 @@ def model_lines(case):
 
 
 def select_model_obs(case, out):
-    return [l for l in out if l.startswith("rows") or l.startswith("error") or l.startswith("bad-op")]
+    return [l for l in out if l.startswith("rows") or l.startswith("error") or l.startswith("bad-op") or l.startswith("iri")]
 
 
 # ---------------------------------------------------------------------------------------------
@@ -2212,6 +2341,12 @@ def _shrink_select(q):
 def shrink(case):
     if "lazy" in case:
         yield materialize(case)
+        return
+    if case["stream"] == "iri":
+        ps = case["pairs"]
+        for i in range(len(ps)):
+            if len(ps) > 1:
+                yield {**case, "pairs": ps[:i] + ps[i + 1:]}
         return
     if case["stream"] == "sel":     # keep the shape `BGP [sub-select] [filter]` and at least one binding
         data = case["data"]
